@@ -105,7 +105,10 @@ impl FakeIrrd {
     pub fn start(table: HashMap<String, Vec<u8>>) -> FakeIrrd {
         let listener = TcpListener::bind("127.0.0.1:0").expect("bind");
         let port = listener.local_addr().unwrap().port();
-        let state = Arc::new(Mutex::new(FakeState { table, ..Default::default() }));
+        let state = Arc::new(Mutex::new(FakeState {
+            table,
+            ..Default::default()
+        }));
         let stop = Arc::new(AtomicBool::new(false));
         let (st, sp) = (state.clone(), stop.clone());
         std::thread::spawn(move || {
